@@ -73,7 +73,7 @@ pub open spec fn labels_wf(l: Labels) -> bool {
          ])
     u.fn(F, 'Labels::get', ret='r',
          ensures=[C('C01.rlabels.get.exact', 'r == (if self.labels@.contains_key(pc) { Some(self.labels@[pc]) } else { None::<Label> })')])
-    u.fn(F, 'Labels::try_get', ret='res', ctx_ok_or=[r'self\.get\(pc\)'],
+    u.fn(F, 'Labels::try_get', ret='res',
          ensures=[
              C('C01.rlabels.try_get.ok-iff-present', 'res.is_ok() <==> self.labels@.contains_key(pc)'),
              C('C01.rlabels.try_get.nothing-invented', 'res matches Ok(l) ==> l == self.labels@[pc]'),
